@@ -426,7 +426,9 @@ func ParseURI(uri SIPStr, puri *PsipURI) (ErrorURI, int) {
 				}
 			case '0', '1', '2', '3', '4', '5', '6', '7', '8', '9':
 				// in case this might be the port no, compute it
-				portNo = portNo*10 + int(c-'0')
+				if portNo <= 65535 { // else already out of range, keep it so
+					portNo = portNo*10 + int(c-'0')
+				}
 			case '[', ']', ':':
 				return ErrURIBadChar, i
 			default:
@@ -499,7 +501,9 @@ func ParseURI(uri SIPStr, puri *PsipURI) (ErrorURI, int) {
 		case uPort:
 			switch c {
 			case '0', '1', '2', '3', '4', '5', '6', '7', '8', '9':
-				portNo = portNo*10 + int(c-'0')
+				if portNo <= 65535 { // else already out of range, keep it so
+					portNo = portNo*10 + int(c-'0')
+				}
 			case ';':
 				puri.Port.Set(s, i)
 				if portNo > 65535 {
